@@ -93,21 +93,7 @@ def check(ctx):
         if isinstance(a, str) and isinstance(b, str) and len(a) == len(b):
             mp = dict(zip(a, b))
     ctx.decide(mp == SIMPLE, "C15-R1", tr or mod.tree, DP, "SIMPLIFIED_CODE_TRANSLATION", "8 -> 3 translation equals the documented table", str(mp), "translation table is %s, documented %s" % (mp, SIMPLE))
-    cd = ctx.py.func(DP, "compute_dssp")
-    s = src(cd)
-    ctx.decide("array.reshape(n_frames, n_residues)" in s and "n_residues = nco_indices.shape[0]" in s and "n_frames = xyz.shape[0]" in s, "C15-R1", cd, DP, "compute_dssp", "one code per residue per frame", "",
-               "the result is not reshaped to (n_frames, n_residues)")
-    ctx.decide("array[:, np.logical_not(protein_indices)] = 'NA'" in s, "C15-R1", cd, DP, "compute_dssp", "'NA' overlaid where the residue is not a complete protein residue", "", "'NA' overlay changed")
-    ctx.decide("if simplified:" in s and "value.translate(SIMPLIFIED_CODE_TRANSLATION)" in s, "C15-R1", cd, DP, "compute_dssp", "simplified output is the image of the full output", "", "simplified output is not produced by translating the full output")
-    ctx.decide("np.dtype('U2')" in s, "C15-R1", cd, DP, "compute_dssp", "element type can hold 'NA'", "", "output dtype cannot hold the two-character code 'NA'")
-    pk = ctx.py.func(HB, "_prep_kabsch_sander_arrays")
-    ps = src(pk)
-    ctx.decide("is_protein.append(ca != -1 and n != -1 and (c != -1) and (o != -1))" in ps or "is_protein.append(ca != -1 and n != -1 and c != -1 and (o != -1))" in ps or
-               re.sub(r"[()\s]", "", "is_protein.append(ca != -1 and n != -1 and c != -1 and o != -1)") in re.sub(r"[()\s]", "", ps), "C15-R1", pk, HB, "_prep_kabsch_sander_arrays",
-               "protein mask = has CA, N, C and O", "", "the protein mask no longer requires all of N, CA, C, O")
-    for nm in ("CA", "N", "C", "O"):
-        ctx.decide(("a.name == '%s'" % nm) in ps, "C15-R1", pk, HB, "_prep_kabsch_sander_arrays", "backbone atom %s looked up by name" % nm, "", "atom %s is not looked up by its name" % nm)
-    ctx.decide("nco_indices.append([n, c, o])" in ps, "C15-R1", pk, HB, "_prep_kabsch_sander_arrays", "index triple ordered (N, C, O)", "", "the (N, C, O) order of nco_indices changed")
+    _r1_python_by_evaluation(ctx)
     # the pyx wrapper allocates n_frames * n_residues characters
     pw = ctx.py.func("mdtraj/geometry/src/_geometry.pyx", "_dssp")
     ctx.decide("bytearray(n_frames * n_residues)" in src(pw), "C15-R1", pw, "mdtraj/geometry/src/_geometry.pyx", "_dssp", "output buffer n_frames*n_residues", "", "output buffer size changed")
@@ -272,3 +258,119 @@ def r5_helix_spans(ctx, cf):
                    "outer loop is `%s; %s`" % (oi, oc))
     if sorted(blocks) != [3, 4, 5]:
         raise AnalysisError("calculate_alpha_helices: helix marking blocks found for strides %s (3, 4, 5 confirmed by hand)" % sorted(blocks))
+
+
+def _r1_python_by_evaluation(ctx):
+    """compute_dssp and _prep_kabsch_sander_arrays evaluated (sa/tensym.py) on a model trajectory of seven residues - complete, proline,
+    one without O, a water whose oxygen is called O, one with its atoms listed backwards, a ligand with N, C, O but no CA, a lone CA: the index arrays are the ones the definition gives
+    (-1 for a missing atom, protein = has N, CA, C and O), the kernel receives them in the order of its signature, and the result is, per
+    frame and residue, the kernel's character (its simplified image when asked) or 'NA' for a residue that is not a complete protein residue."""
+    from ..tensym import TenSym, Ten, Obj
+    from ..pysym import Unsupported as PUnsupported
+    from ..poly import Poly, Rat
+    cd = ctx.py.func(DP, "compute_dssp")
+    pk = ctx.py.func(HB, "_prep_kabsch_sander_arrays")
+    gm = ctx.py.func(HB, "_get_or_minus1")
+    res_spec = [("ALA", ["CB", "N", "CA", "C", "O"]), ("PRO", ["N", "CA", "C", "O", "CD"]), ("SER", ["N", "CA", "C"]), ("HOH", ["O", "H1", "H2"]), ("GLY", ["O", "C", "CA", "N"]),
+                ("LIG", ["N", "C", "O", "C1"]), ("CAL", ["CA"])]
+    atoms, residues = [], []
+    for k, (rn, names) in enumerate(res_spec):
+        r = Obj(name=rn, atoms=[], chain=Obj(index=0 if k < 3 else 1))
+        residues.append(r)
+        for nm in names:
+            a_ = Obj(name=nm, index=len(atoms), residue=r)
+            atoms.append(a_)
+            r.atoms.append(a_)
+    F_ = 2
+    R_ = len(residues)
+    xyz = Ten.sym("x", (F_, len(atoms), 3))
+    top = Obj(residues=residues, atoms=atoms)
+    traj = Obj(xyz=xyz, topology=top, top=top)
+    # _get_or_minus1(f): f() or -1 when the list it indexes is empty - read off its source
+    ok_gm = any(isinstance(n, ast.Try) and any(h.type is not None and "IndexError" in src(h.type) and any(isinstance(x, ast.Return) and src(x.value) == "-1" for x in h.body) for h in n.handlers)
+                for n in ast.walk(gm))
+    ctx.decide(ok_gm, "C15-R1", gm, HB, "_get_or_minus1", "a missing atom (IndexError) becomes -1", "", "_get_or_minus1 no longer maps a missing atom to the sentinel -1")
+
+    def gom(ev, call):
+        lam = ev.ex(call.args[0])
+        try:
+            return ev.apply_lambda(lam, [])
+        except IndexError:
+            return -1
+
+    def idx(rk, nm):
+        return next((a_.index for a_ in residues[rk].atoms if a_.name == nm), -1)
+    want = {"nco": [[idx(k, "N"), idx(k, "C"), idx(k, "O")] for k in range(R_)], "ca": [idx(k, "CA") for k in range(R_)], "pro": [int(res_spec[k][0] == "PRO") for k in range(R_)],
+            "protein": [int(all(idx(k, nm) != -1 for nm in ("N", "CA", "C", "O"))) for k in range(R_)]}
+    q = "_prep_kabsch_sander_arrays"
+    prepared = None
+    try:
+        ts = TenSym(models={"_get_or_minus1": gom, "ensure_type": lambda ev, c: ev.ex(c.args[0])})
+        r = ts.run_fn(pk, traj=traj)
+        if not (isinstance(r, (tuple, list)) and len(r) == 5 and all(isinstance(x, Ten) for x in r)):
+            ctx.violated("C15-R1", pk, HB, q, "returns (xyz, nco_indices, ca_indices, proline_indices, is_protein)", "the return value is not five arrays")
+        else:
+            def ints(t):
+                v = [x.const_value() for x in t.data]
+                return None if any(c is None for c in v) else [int(c) for c in v]
+            got = {"nco": ints(r[1]), "ca": ints(r[2]), "pro": ints(r[3]), "protein": ints(r[4])}
+            flat = {"nco": [x for row in want["nco"] for x in row], "ca": want["ca"], "pro": want["pro"], "protein": want["protein"]}
+            shapes = {"nco": (R_, 3), "ca": (R_,), "pro": (R_,), "protein": (R_,)}
+            texts = {"nco": "nco_indices[r] = (N, C, O) atom indices of residue r, -1 when missing", "ca": "ca_indices[r] = index of CA, -1 when missing",
+                     "pro": "proline flag = residue name is PRO", "protein": "protein mask = has all of N, CA, C, O"}
+            for pos, key in ((1, "nco"), (2, "ca"), (3, "pro"), (4, "protein")):
+                ok = r[pos].shape == shapes[key] and got[key] == flat[key]
+                ctx.decide(ok, "C15-R1", pk, HB, q, texts[key], "", "on the model residues %s the array is %s (shape %s), the definition gives %s"
+                           % ([x[0] for x in res_spec], got[key], r[pos].shape, flat[key]))
+            ctx.decide(r[0] is xyz or (isinstance(r[0], Ten) and ts.first_difference(r[0], xyz) is None), "C15-R1", pk, HB, q, "xyz = the coordinates of the trajectory", "", "the coordinates handed on are not traj.xyz")
+            prepared = r
+    except PUnsupported as e:
+        ctx.undecided("C15-R1", pk, HB, q, "index arrays on the model residues", "not evaluable: %s" % e)
+    # ---- compute_dssp
+    q = "compute_dssp"
+    if prepared is None:
+        prepared = (xyz, Ten((R_, 3), [Rat(Poly.const(x)) for row in want["nco"] for x in row]), Ten((R_,), [Rat(Poly.const(x)) for x in want["ca"]]),
+                    Ten((R_,), [Rat(Poly.const(x)) for x in want["pro"]]), Ten((R_,), [Rat(Poly.const(x)) for x in want["protein"]]))
+    for simplified in (False, True):
+        rec = {}
+
+        def kernel(ev, call):
+            rec["args"] = [ev.ex(a_) for a_ in call.args] + [ev.ex(k.value) for k in call.keywords]
+            chars = [Rat(Poly.var("code[%d,%d]" % (f, r_))) for f in range(F_) for r_ in range(R_)]
+
+            def mk(cs):
+                return Obj(tag="str", chars=cs, translate=lambda table: mk([ev.fn("simplified", c) for c in cs]) if getattr(table, "tag", None) == "table" else None)
+            return mk(chars)
+
+        def fromiter(ev, call):
+            v = ev.ex(call.args[0])
+            dt = call.args[1] if len(call.args) > 1 else next((k.value for k in call.keywords if k.arg == "dtype"), None)
+            rec["dtype"] = src(dt) if dt is not None else None
+            if not (isinstance(v, Obj) and getattr(v, "tag", None) == "str"):
+                raise PUnsupported("np.fromiter of something that is not the kernel's string")
+            return Ten((len(v.chars),), list(v.chars))
+        ts = TenSym({"SIMPLIFIED_CODE_TRANSLATION": Obj(tag="table")}, models={"_prep_kabsch_sander_arrays": lambda ev, c: tuple(prepared), "_geometry._dssp": kernel, "np.fromiter": fromiter})
+        desc = "simplified=%s" % simplified
+        try:
+            out = ts.run_fn(cd, traj=traj, simplified=simplified)
+        except PUnsupported as e:
+            ctx.undecided("C15-R1", cd, DP, q, desc + ": result on the model trajectory", "not evaluable: %s" % e)
+            continue
+        args = rec.get("args") or []
+        chain_ids = [0 if k < 3 else 1 for k in range(R_)]
+        ok = len(args) == 5 and all(args[k] is prepared[k] or (isinstance(args[k], Ten) and ts.first_difference(args[k], prepared[k]) is None) for k in range(4)) and \
+            isinstance(args[4], Ten) and [x.const_value() for x in args[4].data] == chain_ids
+        ctx.decide(ok, "C15-R1", cd, DP, q, desc + ": kernel receives (xyz, nco_indices, ca_indices, proline flags, chain index of every residue)", "",
+                   "the arguments of _geometry._dssp are not the prepared arrays in the order of its signature followed by the residues' chain indices")
+        wanted = []
+        for f in range(F_):
+            for r_ in range(R_):
+                c = Rat(Poly.var("code[%d,%d]" % (f, r_)))
+                wanted.append(Rat(Poly.var(repr("NA"))) if not want["protein"][r_] else (ts.fn("simplified", c) if simplified else c))
+        wt = Ten((F_, R_), wanted)
+        ok = isinstance(out, Ten) and out.shape == (F_, R_) and ts.first_difference(out, wt) is None
+        ctx.decide(ok, "C15-R1", cd, DP, q, desc + ": out[f, r] = %s, 'NA' where the residue lacks one of N, CA, C, O" % ("the fixed 3-letter image of the kernel's character" if simplified else "the kernel's character for frame f, residue r"), "",
+                   "the result %s" % ("has shape %s instead of (n_frames, n_residues)" % (getattr(out, "shape", None),) if not (isinstance(out, Ten) and out.shape == (F_, R_)) else ts.first_difference(out, wt)))
+        dt = (rec.get("dtype") or "").replace('"', "'")
+        m = re.search(r"U(\d+)", dt)
+        ctx.decide(bool(m) and int(m.group(1)) >= 2, "C15-R1", cd, DP, q, desc + ": element type can hold 'NA' (%s)" % dt, "", "the characters are collected with dtype %s, which cannot hold the two-character code 'NA'" % (dt or None))
